@@ -610,7 +610,7 @@ package raft
 // Client API: submissions and membership changes (C03, C09, C18)
 // ===========================================================================================
 
-//@ spec pendingSpec(r) = r.committedConfiguration == nil || r.committedConfiguration.Index != r.configuration.Index || r.configurationResponseCh != nil
+//@ spec pendingSpec(r) = r.committedConfiguration == nil || r.committedConfiguration.Index != r.configuration.Index || r.configurationResponseCh != nil || (exists i int :: r.lastApplied < i && i <= Llast && Ltyp[i] == ConfigurationEntry)
 //@ spec sameMaps(a, b) = (forall k string :: (k in a.Members) == (k in b.Members)) && (forall k string :: a.Members[k] == b.Members[k]) && (forall k string :: (k in a.IsVoter) == (k in b.IsVoter)) && (forall k string :: a.IsVoter[k] == b.IsVoter[k])
 
 //@ func newFuture
@@ -644,6 +644,10 @@ package raft
 //@   ensures [not-leader] old(r.state) != Leader ==> answered[operationFuture.responseCh] && Llast == old(Llast)
 //@   at before-assign r.operationManager.pendingReadOnly[operation] assert [readIndex] r.state == Leader && operation != nil && operation.readIndex >= r.commitIndex && operation.readIndex <= Llast && (!committedThisTermSpec(r) ==> operation.readIndex == Llast) && operation.round == r.operationManager.rounds && !operation.quorumVerified && operation.OperationType == readOnlyType && newval == operationFuture.responseCh
 
+//@ func Raft.pendingConfigurationChange
+//@   flags inline lockheld
+//@   ensures [spec] result == pendingSpec(r)
+//@   loop for index invariant [scan] r.lastApplied < index && forall i int :: r.lastApplied < i && i < index ==> Ltyp[i] != ConfigurationEntry
 //@ func Raft.AddServer
 //@   at call r.appendConfiguration assert [guard] r.state == Leader && committedThisTermSpec(r) && !pendingSpec(r)
 //@   at call r.appendConfiguration assert [delta] (forall k string :: (k in configuration.Members) == (k in r.configuration.Members || k == id)) && (forall k string :: k != id && k in r.configuration.Members ==> configuration.Members[k] == r.configuration.Members[k] && configuration.IsVoter[k] == r.configuration.IsVoter[k]) && configuration.Members[id] == address && configuration.IsVoter[id] == isVoter
